@@ -6,14 +6,29 @@ Import ListNotations.
 
 (* ---- hypotheses on a history ------------------------------------------- *)
 
-(* clock_monotone: every operation happens at a fresh, strictly larger time
-   (an edit stamps the source with it, a build stamps what it writes) *)
-Fixpoint mono_from (t0 : nat) (h : hist) : Prop :=
+(* Times.  Every operation happens at a time that is not earlier than the
+   previous one (an edit stamps the source with it, a build stamps what it
+   writes).  In particular an edit may carry exactly the modification time of
+   the output the last build wrote (coarse timestamps, a fast edit/build loop).
+     clock_weak:     nothing more — a build may even happen in the same tick as
+                     the edit before it, so that the output it writes is not
+                     newer than its source;
+     clock_monotone: additionally every BUILD happens strictly later than the
+                     operation before it ("an edit is not older than the last
+                     written output, a written output is newer than its source"). *)
+Definition later (strict : bool) (t0 t : nat) (o : op) : Prop :=
+  match o with
+  | Build => if strict then t0 < t else t0 <= t
+  | _ => t0 <= t
+  end.
+Fixpoint mono_from (strict : bool) (t0 : nat) (h : hist) : Prop :=
   match h with
   | [] => True
-  | (t, _) :: h' => t0 < t /\ mono_from t h'
+  | (t, o) :: h' => later strict t0 t o /\ mono_from strict t h'
   end.
-Definition clock_monotone (h : hist) : Prop := mono_from 0 h.
+Definition clock_monotone (h : hist) : Prop := mono_from true 0 h.
+Definition clock_weak (h : hist) : Prop := mono_from false 0 h.
+Definition clock_monotone_weak_stmt : Prop := forall h, clock_monotone h -> clock_weak h.
 
 (* the settings the build script ever has in a history *)
 Fixpoint used (c0 : settings) (h : hist) : list settings :=
@@ -99,7 +114,7 @@ Fixpoint runG (m : mode) (fixed : bool) (s : state) (g : ghost) (h : hist) : sta
    Holds for the code as it is and for the repaired variant. *)
 Definition incremental_equals_clean_stmt : Prop :=
   forall m fixed y0 l0 c0 h t,
-    clock_monotone (h ++ [(t, Build)]) ->
+    clock_weak (h ++ [(t, Build)]) ->
     cache_injective c0 h ->
     let s := run m fixed (init y0 l0 c0) h in
     build_ok (snd (build_step m fixed s t)) ->
@@ -122,6 +137,31 @@ Definition regenerated_iff_changed_stmt : Prop :=
     (regen = false -> g_last_ok g = Some (pconf s)) /\
     (g_prev g = g_last_ok g -> (regen = true <-> g_last_ok g <> Some (pconf s))) /\
     (forall b, snd (build_step m fixed s t) = Done b -> b_ywritten b = regen).
+
+(* the safe direction needs no strictness at all: whenever the flag says "not
+   regenerated" (and nothing is written), the configuration — text, mtime,
+   generated file — is that of the most recent build whose parser stage
+   succeeded.  An edit in the same tick as the last output therefore always
+   causes regeneration (the skip test is a strict "output newer than source"). *)
+Definition not_regenerated_implies_unchanged_stmt : Prop :=
+  forall m fixed y0 l0 c0 h t regen,
+    clock_weak (h ++ [(t, Build)]) ->
+    cache_injective c0 h ->
+    let '(s, g) := runG m fixed (init y0 l0 c0) ghost0 h in
+    parser_stage m fixed s t = Some (POk regen) ->
+    (regen = false -> g_last_ok g = Some (pconf s)) /\
+    (forall b, snd (build_step m fixed s t) = Done b -> b_ywritten b = regen).
+
+(* ... while "unchanged -> not regenerated" does need builds to be later than
+   the sources they read: a build in the same tick as the edit writes an output
+   that is not newer than its source, and the next build regenerates *)
+Definition rebuild_is_noop_needs_later_build_refuted_stmt : Prop :=
+  exists m fixed y0 l0 c0 h t1 t2,
+    clock_weak (h ++ [(t1, Build); (t2, Build)]) /\
+    let s := run m fixed (init y0 l0 c0) h in
+    let s1 := fst (build_step m fixed s t1) in
+    build_ok (snd (build_step m fixed s t1)) /\
+    parser_stage m fixed s1 t2 = Some (POk true).
 
 Definition runG_fst_stmt : Prop :=
   forall m fixed s g h, fst (runG m fixed s g h) = run m fixed s h.
@@ -147,7 +187,7 @@ Definition no_stale (o clean : option ycontent * option lcontent) : Prop :=
 
 Definition failed_build_leaves_no_stale_for (fixed : bool) : Prop :=
   forall m y0 l0 c0 h t,
-    clock_monotone (h ++ [(t, Build)]) ->
+    clock_weak (h ++ [(t, Build)]) ->
     cache_injective c0 h ->
     let s := run m fixed (init y0 l0 c0) h in
     build_failed (snd (build_step m fixed s t)) ->
